@@ -142,6 +142,10 @@ def run(ctx):
     edge.append((["main", S.join(["-o", "o", "-a"]), "-"], False, "missing input"))
     edge.append((["main", S.join(["-i", "i", "-a"]), "-"], False, "missing output"))
     edge.append((["main", S.join(["-c", "@CFG@", "-a"]), "input=i\n"], False, "missing output (config)"))
+    edge.append((["main", S.join(["-i", "i", "-o", "", "-a"]), "-"], False, "empty output"))
+    edge.append((["main", S.join(["-i", "", "-o", "o", "-p"]), "-"], False, "empty input"))
+    edge.append((["main", S.join(["-i", "i", "--output=", "-a", "-d", "dump.txt"]), "-"], False, "empty output (--output=)"))
+    edge.append((["main", S.join(["-c", "@CFG@", "-a"]), "input=i\noutput=\n"], False, "empty output (config)"))
     eo = vlib.run_impl([e[0] for e in edge])
     for (c, ok, what), o in zip(edge, eo):
         if ok != o.startswith("CALL"):
